@@ -5,6 +5,7 @@ import tempfile
 from lib.core import *
 from lib import gen_ls as g
 from lib import gen_net as gn
+from lib.exact_verdict import XJudge
 
 ID = "C01"
 PROPS_FILES = sorted("Gama/Props/C01/" + Path(f).name for f in glob.glob(str(LEAN / "Gama/Props/C01/*.lean")))
@@ -59,6 +60,8 @@ MODELLED = ["IEEE rounding (proofs over exact ordered fields)", "SVD::svd: conve
             "LocalNetwork: the cluster loop of prepareProjectEquations (ind_0 += N) is written with block index/offset "
             "lookup (AdjM.locate); caching flags tst_rov_opr_/tst_vyrovnani_ (C04)"]
 ASSUMPTIONS = ["rank numerically unambiguous: generator keeps exact small-integer/dyadic data so every pivot is 0 or O(1)"]
+TRUSTED = ["tools/lib/exact_verdict.py + gen_ls.reference: decide ls cases whose x answer misses the fixed 1e-9 comparison on a "
+           "demonstrably ill-conditioned problem (both sides against the exact solution; capped, counted)"]
 
 ALGS = ["env", "chol", "gso", "svd"]
 SRC = ["lib/gnu_gama/adj/adj.cpp", "lib/gnu_gama/adj/icgs.cpp", "lib/gnu_gama/adj/adj_input_data.cpp"]
@@ -165,6 +168,7 @@ def correspond(ctx, corr):
     impl, crashes = run_cases(exe, cases)
     model, _ = run_cases(ctx.driver("drv_ls"), cases)
     refs = {}
+    judge = XJudge(corr, "ls_x")
     for i, (c, (p, S, alg, entry)) in enumerate(zip(cases, meta)):
         nontrivial = p["defect"] > 0 or not p["unit_cov"]
         corr.case(key=(" ".join(c)) if nontrivial else None,
@@ -182,17 +186,22 @@ def correspond(ctx, corr):
             corr.fail("solver crashed / sanitizer report", {"stream": "ls", "ops": c}, f"{alg}/{entry}", crashes[i][1])
             continue
         # model <-> implementation
-        nm = False
-        for a, b in zip(impl[i], model[i]):
+        nm, miss = False, []
+        for k, (a, b) in enumerate(zip(impl[i], model[i])):
             if b == "not-modelled":
                 nm = True
                 continue
             if not lines_equal(a, b, rtol=1e-9, atol=1e-9):
-                corr.disagree("ls", c, impl[i], model[i], f"{alg}/{entry}")
-                break
-        else:
-            if len(impl[i]) != len(model[i]):
-                corr.disagree("ls", c, impl[i], model[i], "length")
+                miss.append(k)
+        if miss:
+            # a miss only in an x line (out[2]; out[7] after set_alg on the same object): wrong, or rounding on an
+            # ill-conditioned problem?  decided against the EXACT solution (tools/lib/exact_verdict.py); any other miss
+            # is a disagreement as before
+            okj, why = judge.misses(p, S, impl[i], model[i], miss, x_at=(2, 7) if ">" in alg else (2,))
+            if not okj:
+                corr.disagree("ls", c, impl[i], model[i], f"{alg}/{entry}" + (": " + why if why else ""))
+        elif len(impl[i]) != len(model[i]):
+            corr.disagree("ls", c, impl[i], model[i], "length")
         corr.count("not_modelled" if nm else "modelled")
         # oracle on the implementation
         key = (id(p), tuple(S))
@@ -203,6 +212,7 @@ def correspond(ctx, corr):
             bad = ["after set_alg: " + b for b in oracle(p, S, impl[i][:2] + impl[i][7:11], refs[key])]
         if bad:
             corr.fail("; ".join(bad), {"stream": "ls", "ops": c, "subset": S}, f"{alg}/{entry}", " | ".join(impl[i]))
+    judge.finish(len(cases))
     tot = corr.stats.get("singular", 0) + corr.stats.get("regular", 0)
     if tot and corr.stats.get("singular", 0) < 0.25 * tot:
         corr.inconclusive.append("fewer than 25% singular problems")
